@@ -83,8 +83,9 @@ def check(prog: Program, tier: str) -> Result:
             res.ob("R19.1", f"{name}: month lengths = non-leap calendar", ok, prog.loc(fi, n))
             if not ok:
                 res.violation("R19.1", f"{name}|table|{li}", prog.loc(fi, n), q, f"month lengths {li} differ from the non-leap calendar {NONLEAP}")
-        hy = [n for n in ast.walk(fi.node) if isinstance(n, ast.Assign) and isinstance(n.targets[0], ast.Name) and n.targets[0].id == "hours_in_year"]
-        ok = len(hy) == 1 and isinstance(hy[0].value, ast.ListComp) and ast.unparse(hy[0].value.generators[0].iter) == tabs[0][0].targets[0].id
+        hy = [n for n in ast.walk(fi.node) if isinstance(n, ast.Assign) and isinstance(n.targets[0], ast.Name) and isinstance(n.value, ast.ListComp)
+              and len(n.value.generators) == 1 and ast.unparse(n.value.generators[0].iter) == tabs[0][0].targets[0].id]
+        ok = len(hy) == 1
         if ok:
             e = Engine(prog, fi, Hooks())
             s = State()
@@ -94,100 +95,117 @@ def check(prog: Program, tier: str) -> Result:
         res.ob("R19.1", f"{name}: hours of a month = 24 * its days", bool(ok), prog.loc(fi, hy[0]) if hy else prog.loc(fi, fi.node))
         if not ok:
             res.violation("R19.1", f"{name}|hours-per-month", prog.loc(fi, hy[0]) if hy else prog.loc(fi, fi.node), q, "the hours per month are not 24 * days of the month")
-    # closed forms of ghe_time_convert
+    # closed forms.  Roles are read off the code: the month table DIY (literal), its hours list HIY (comprehension over DIY),
+    # the search loop over DIY with its break-branch (MON = index) and, for ghe_time_convert, the running sum of the else-branch
+    def roles(fi_):
+        fn_ = fi_.node
+        diy = next((n.targets[0].id for n in fn_.body if isinstance(n, ast.Assign) and isinstance(n.targets[0], ast.Name) and _list_ints(n.value) is not None and len(_list_ints(n.value)) >= 12), None)
+        hiy = next((n.targets[0].id for n in fn_.body if isinstance(n, ast.Assign) and isinstance(n.targets[0], ast.Name) and isinstance(n.value, ast.ListComp)
+                    and len(n.value.generators) == 1 and ast.unparse(n.value.generators[0].iter) == diy), None)
+        loop = next((n for n in fn_.body if isinstance(n, ast.For)), None)
+        if diy is None or hiy is None or loop is None:
+            raise AnalysisError(f"{fi_.qualname}: month table / hours list / search loop not found")
+        idx = None
+        if isinstance(loop.iter, ast.Call) and attr_chain(loop.iter.func) == "enumerate" and ast.unparse(loop.iter.args[0]) == diy and isinstance(loop.target, ast.Tuple) and isinstance(loop.target.elts[0], ast.Name):
+            idx = loop.target.elts[0].id
+        elif isinstance(loop.iter, ast.Call) and attr_chain(loop.iter.func) == "range" and isinstance(loop.target, ast.Name):
+            idx = loop.target.id
+        brk = [n for n in ast.walk(loop) if isinstance(n, ast.If) and any(isinstance(b, ast.Break) for b in n.body)]
+        if idx is None or len(brk) != 1:
+            raise AnalysisError(f"{fi_.qualname}: search loop shape not understood")
+        mon = next((s_.targets[0].id for s_ in brk[0].body if isinstance(s_, ast.Assign) and isinstance(s_.targets[0], ast.Name) and ast.unparse(s_.value) == idx), None)
+        if mon is None:
+            raise AnalysisError(f"{fi_.qualname}: the search does not record the month index when it stops")
+        k = fn_.body.index(loop)
+        return {"DIY": diy, "HIY": hiy, "loop": loop, "IDX": idx, "brk": brk[0], "MON": mon, "pre": fn_.body[:k], "post": fn_.body[k + 1:]}
+
+    def run(eng_, stmts, st_):
+        for s_ in stmts:
+            if isinstance(s_, (ast.Assign, ast.AugAssign)):
+                out = eng_.run_stmt(s_, st_)
+                if len(out) != 1:
+                    raise AnalysisError("straight-line statements expected")
+
     q = f"{OM}.ghe_time_convert"
     fi = prog.func(q)
+    R = roles(fi)
+    hours_p = fi.params()[-1]
     eng = Engine(prog, fi, Hooks())
     st = State()
-    st.env["hours"] = Rat.atom("hours")
-    st.env["month_in_year"] = Rat.atom("M")
-    st.env["hours_in_year"] = Rat.atom("hours_in_year")
-    tail = {}
-    for s in fi.node.body:
-        if isinstance(s, ast.Assign) and isinstance(s.targets[0], ast.Name) and s.targets[0].id in ("h_l", "day_in_month", "hour_in_day"):
-            eng._s_Assign(s, st)
-            tail[s.targets[0].id] = (st.env[s.targets[0].id], s)
-    if set(tail) != {"h_l", "day_in_month", "hour_in_day"}:
-        raise AnalysisError(f"{q}: closed-form tail (h_l, day_in_month, hour_in_day) not found")
-    hl = tail["h_l"][0]
-    before = [sym.dot(sym.elem_atom("hours_in_year", 0), Rat.atom("M"))]
-    ok = isinstance(hl, Rat) and hl.equals(Rat.atom("hours") - before[0])
-    hl_node = tail["h_l"][1].value
-    okslice = any(isinstance(n, ast.Subscript) and isinstance(n.slice, ast.Slice) and (n.slice.lower is None or ast.unparse(n.slice.lower) == "0") and ast.unparse(n.slice.upper) == "month_in_year" for n in ast.walk(hl_node))
-    res.ob("R19.1", "ghe_time_convert: hours into the month = hours - sum(hours of the months before)", bool(ok and okslice), prog.loc(fi, tail["h_l"][1]))
-    if not (ok and okslice):
-        res.violation("R19.1", f"time-convert|h_l|{vkey(hl)[:60]}", prog.loc(fi, tail["h_l"][1]), q, f"the hours into the month are {vkey(hl)[:120]} instead of hours - sum(hours_in_year[0:month_in_year])")
-    st.env["h_l"] = Rat.atom("HL")
-    d = eng.eval(tail["day_in_month"][1].value, st)
-    h = eng.eval(tail["hour_in_day"][1].value, st)
-    HL = Rat.atom("HL")
-    okd = isinstance(d, Rat) and (d.equals(sym.call("floor", [HL / Rat.const(24)]) + Rat.const(1)) or d.equals(sym.call("floordiv", [HL, Rat.const(24)]) + Rat.const(1)))
-    okh = isinstance(h, Rat) and h.equals(sym.call("mod", [HL, Rat.const(24)]) + Rat.const(1))
-    res.ob("R19.1", f"ghe_time_convert: day = floor(h_l / 24) + 1 (got {vkey(d)[:40]})", okd, prog.loc(fi, tail["day_in_month"][1]))
-    res.ob("R19.1", f"ghe_time_convert: hour of day = h_l mod 24 + 1 (got {vkey(h)[:40]})", okh, prog.loc(fi, tail["hour_in_day"][1]))
-    if not okd:
-        res.violation("R19.1", f"time-convert|day|{vkey(d)[:40]}", prog.loc(fi, tail["day_in_month"][1]), q, f"day of month is {vkey(d)[:80]} instead of floor(h_l / 24) + 1")
-    if not okh:
-        res.violation("R19.1", f"time-convert|hour|{vkey(h)[:40]}", prog.loc(fi, tail["hour_in_day"][1]), q, f"hour of day is {vkey(h)[:80]} instead of h_l mod 24 + 1")
+    st.env[hours_p] = Rat.atom("hours")
+    pre = [s_ for s_ in R["pre"] if not (isinstance(s_, ast.Assign) and isinstance(s_.targets[0], ast.Name) and s_.targets[0].id in (R["DIY"], R["HIY"]))]
+    run(eng, pre, st)
+    st.env[R["HIY"]] = Rat.atom("hours_in_year")
+    st.env[R["DIY"]] = Rat.atom("days_in_year")
+    acc0 = {k: v for k, v in st.env.items() if isinstance(v, Rat) and v.is_const()}
+    st.env[R["MON"]] = Rat.atom("M")
+    run(eng, R["post"], st)
     rets = [r for r in ast.walk(fi.node) if isinstance(r, ast.Return)]
-    ok = len(rets) == 1 and isinstance(rets[0].value, ast.Tuple) and [ast.unparse(e).replace(" ", "") for e in rets[0].value.elts] == ["month_in_year+1", "day_in_month", "hour_in_day"]
-    res.ob("R19.1", "ghe_time_convert returns (month index + 1, day, hour)", ok, prog.loc(fi, rets[0]) if rets else prog.loc(fi, fi.node))
+    if len(rets) != 1 or not isinstance(rets[0].value, ast.Tuple) or len(rets[0].value.elts) != 3:
+        raise AnalysisError(f"{q}: return (month, day, hour) not found")
+    m_v, d_v, h_v = (eng.eval(e_, st) for e_ in rets[0].value.elts)
+    HLw = Rat.atom("hours") - sym.dot(sym.elem_atom("hours_in_year", 0), Rat.atom("M"))
+    ok = isinstance(m_v, Rat) and m_v.equals(Rat.atom("M") + Rat.const(1))
+    res.ob("R19.1", "ghe_time_convert returns (month index + 1, day, hour)", ok, prog.loc(fi, rets[0]))
     if not ok:
-        res.violation("R19.1", "time-convert|return", prog.loc(fi, rets[0]) if rets else prog.loc(fi, fi.node), q, f"ghe_time_convert returns {ast.unparse(rets[0].value) if rets else '?'} instead of (month_in_year + 1, day_in_month, hour_in_day)")
+        res.violation("R19.1", "time-convert|return", prog.loc(fi, rets[0]), q, f"ghe_time_convert returns {vkey(m_v)[:40]} as the month instead of the month index + 1")
+    okd = isinstance(d_v, Rat) and (d_v.equals(sym.call("floor", [HLw / Rat.const(24)]) + Rat.const(1)) or d_v.equals(sym.call("floordiv", [HLw, Rat.const(24)]) + Rat.const(1)))
+    okh = isinstance(h_v, Rat) and h_v.equals(sym.call("mod", [HLw, Rat.const(24)]) + Rat.const(1))
+    res.ob("R19.1", f"ghe_time_convert: day = floor(h_l / 24) + 1 with h_l = hours - sum(hours of the months before) (got {vkey(d_v)[:40]})", okd, prog.loc(fi, rets[0]))
+    res.ob("R19.1", f"ghe_time_convert: hour of day = h_l mod 24 + 1 (got {vkey(h_v)[:40]})", okh, prog.loc(fi, rets[0]))
+    if not okd:
+        res.violation("R19.1", f"time-convert|day|{vkey(d_v)[:40]}", prog.loc(fi, rets[0]), q, f"day of month is {vkey(d_v)[:120]} instead of floor(h_l / 24) + 1 with h_l = hours - sum(hours_in_year[0:month])")
+    if not okh:
+        res.violation("R19.1", f"time-convert|hour|{vkey(h_v)[:40]}", prog.loc(fi, rets[0]), q, f"hour of day is {vkey(h_v)[:120]} instead of h_l mod 24 + 1 with h_l = hours - sum(hours_in_year[0:month])")
     # month search: first month whose cumulative hours reach the hour index (0-based): sum + h[idx] - 1 >= hours
-    srch = [n for n in ast.walk(fi.node) if isinstance(n, ast.If) and any(isinstance(b, ast.Break) for b in n.body)]
+    loop, brk = R["loop"], R["brk"]
+    accs = [s_ for s_ in ast.walk(loop) if isinstance(s_, ast.AugAssign) and isinstance(s_.target, ast.Name) and isinstance(s_.op, ast.Add)]
     ok = False
-    if len(srch) == 1:
+    if len(accs) == 1 and any(accs[0] is x for b_ in brk.orelse for x in ast.walk(b_)):
+        ACC = accs[0].target.id
         e2 = Engine(prog, fi, Hooks())
         s2 = State()
-        for nm in ("year_hour_sum", "hours_left", "idx"):
-            s2.env[nm] = Rat.atom(nm)
-        s2.env["hours_in_year"] = Rat.atom("hours_in_year")
-        c = e2.cond(srch[0].test, s2)
-        want = Rat.atom("year_hour_sum") + Rat.atom("hours_in_year[idx]") - Rat.const(1) - Rat.atom("hours_left")
+        s2.env[hours_p] = Rat.atom("hours")
+        s2.env[R["HIY"]] = Rat.atom("hours_in_year")
+        s2.env[R["IDX"]] = Rat.atom("idx")
+        s2.env[ACC] = Rat.atom("ACC")
+        run(e2, [s_ for s_ in loop.body if s_ is not brk], s2)
+        c = e2.cond(brk.test, s2)
+        want = Rat.atom("ACC") + Rat.atom("hours_in_year[idx]") - Rat.const(1) - Rat.atom("hours")
         ok = c.kind == "cmp" and ((c.a.equals(want) and c.s == frozenset(("0", "+"))) or (c.a.equals(-want) and c.s == frozenset(("0", "-"))))
-        acc = [s for s in ast.walk(srch[0]) if isinstance(s, ast.AugAssign) and ast.unparse(s.target) == "year_hour_sum" and ast.unparse(s.value) == "hours_in_year[idx]"]
-        ok = ok and len(acc) == 1 and any(isinstance(s, ast.Assign) and ast.unparse(s.targets[0]) == "month_in_year" and ast.unparse(s.value) == "idx" for s in srch[0].body)
-    res.ob("R19.1", "ghe_time_convert: month = first one with cumulative hours - 1 >= hour index (0-based), cumulative sum advanced otherwise", ok, prog.loc(fi, srch[0]) if srch else prog.loc(fi, fi.node))
+        inc = e2.eval(accs[0].value, s2)
+        a0 = acc0.get(ACC)
+        ok = ok and isinstance(inc, Rat) and inc.equals(Rat.atom("hours_in_year[idx]")) and a0 is not None and a0.is_zero()
+    res.ob("R19.1", "ghe_time_convert: month = first one with cumulative hours - 1 >= hour index (0-based), cumulative sum (from 0) advanced otherwise", ok, prog.loc(fi, brk))
     if not ok:
-        res.violation("R19.1", "time-convert|month-search", prog.loc(fi, srch[0]) if srch else prog.loc(fi, fi.node), q, "the month search of ghe_time_convert no longer selects the first month whose last hour index (cumulative hours - 1) reaches the given 0-based hour")
+        res.violation("R19.1", "time-convert|month-search", prog.loc(fi, brk), q, "the month search of ghe_time_convert no longer selects the first month whose last hour index (cumulative hours - 1) reaches the given 0-based hour")
     # hours_to_month closed form
     q = f"{OM}.hours_to_month"
     fi = prog.func(q)
+    R = roles(fi)
+    hours_p = fi.params()[-1]
     e3 = Engine(prog, fi, Hooks())
     s3 = State()
-    s3.env.update({"hours": Rat.atom("hours"), "hours_in_year": Rat.atom("hours_in_year"), "days_in_year": Rat.atom("days_in_year"), "month_in_year": Rat.atom("M")})
-    for s in fi.node.body:
-        if isinstance(s, ast.Assign) and isinstance(s.targets[0], ast.Name) and s.targets[0].id in ("n_years",):
-            e3._s_Assign(s, s3)
-    ny = s3.env.get("n_years")
+    s3.env[hours_p] = Rat.atom("hours")
+    s3.env[R["HIY"]] = Rat.atom("hours_in_year")
+    s3.env[R["DIY"]] = Rat.atom("days_in_year")
+    run(e3, [s_ for s_ in R["pre"] if not (isinstance(s_, ast.Assign) and isinstance(s_.targets[0], ast.Name) and s_.targets[0].id in (R["DIY"], R["HIY"], R["MON"]))], s3)
+    s3.env[R["MON"]] = Rat.atom("M")
+    run(e3, R["post"], s3)
+    rets = [r for r in ast.walk(fi.node) if isinstance(r, ast.Return) and r.value is not None]
+    if len(rets) != 1:
+        raise AnalysisError(f"{q}: single return expected")
+    fm = e3.eval(rets[0].value, s3)
     Y = sym.call("sum", [Rat.atom("hours_in_year")])
-    ok = isinstance(ny, Rat) and ny.equals(sym.call("floor", [Rat.atom("hours") / Y]))
-    res.ob("R19.1", "hours_to_month: whole years = floor(hours / hours per year)", ok, prog.loc(fi, fi.node))
-    if not ok:
-        res.violation("R19.1", f"hours-to-month|years|{vkey(ny)[:50]}", prog.loc(fi, fi.node), q, f"the number of whole years is {vkey(ny)[:80]} instead of floor(hours / sum(hours_in_year))")
-    s3.env["n_years"] = Rat.atom("NY")
-    frac = None
-    s3.env["frac_month"] = None
-    for s in fi.node.body:
-        if isinstance(s, ast.Assign) and ast.unparse(s.targets[0]) == "frac_month":
-            s3.env["frac_month"] = e3.eval(s.value, s3)
-        elif isinstance(s, ast.AugAssign) and ast.unparse(s.target) == "frac_month":
-            v = e3.eval(s.value, s3)
-            cur = s3.env.get("frac_month")
-            s3.env["frac_month"] = cur + v if isinstance(cur, Rat) and isinstance(v, Rat) else None
-        elif isinstance(s, ast.Assign) and ast.unparse(s.targets[0]) == "h_l":
-            s3.env["h_l"] = e3.eval(s.value, s3)
-    fm = s3.env.get("frac_month")
-    before_m = sym.call("sum", [Rat.atom("hours_in_year[0:M]")])
+    NY = sym.call("floor", [Rat.atom("hours") / Y])
     okf = False
     if isinstance(fm, Rat):
         sumb = sym.dot(sym.elem_atom("hours_in_year", 0), Rat.atom("M"))
-        want = Rat.atom("NY") * sym.call("len", [Rat.atom("days_in_year")]) + Rat.atom("M") + (Rat.atom("hours") - Rat.atom("NY") * Y - sumb) / Rat.atom("hours_in_year[M]")
+        want = NY * sym.call("len", [Rat.atom("days_in_year")]) + Rat.atom("M") + (Rat.atom("hours") - NY * Y - sumb) / Rat.atom("hours_in_year[M]")
         okf = fm.equals(want)
-    res.ob("R19.1", "hours_to_month: 12 * years + months before + (hours into the month) / (hours of the month)", okf, prog.loc(fi, fi.node))
+    res.ob("R19.1", "hours_to_month: 12 * floor(hours / hours per year) + months before + (hours into the month) / (hours of the month)", okf, prog.loc(fi, fi.node))
     if not okf:
-        res.violation("R19.1", f"hours-to-month|fraction|{vkey(fm)[:60]}", prog.loc(fi, fi.node), q, f"the fractional month is {vkey(fm)[:160]}")
+        res.violation("R19.1", f"hours-to-month|fraction|{vkey(fm)[:60]}", prog.loc(fi, fi.node), q, f"the fractional month is {vkey(fm)[:200]}")
 
     # ---------------- R19.2 loads table
     q = f"{OM}.get_hourly_loading_data"
